@@ -500,7 +500,7 @@ func genLinOp(t *rapid.T) model.Op {
 	ids := []string{"f", "m", "s", "s2"}
 	switch rapid.SampledFrom([]int{0, 0, 1, 1, 1, 2, 3, 4, 5, 6, 7}).Draw(t, "k") {
 	case 0:
-		return model.Op{K: "regnode", N: rapid.SampledFrom(ids).Draw(t, "n"), Pol: rapid.SampledFrom([]int{0, 0, 1, 2, 3}).Draw(t, "pol")}
+		return model.Op{K: "regnode", N: rapid.SampledFrom(ids).Draw(t, "n"), Pol: rapid.SampledFrom([]int{0, 0, 1, 2, 3}).Draw(t, "pol"), Shape: rapid.SampledFrom([]int{0, 0, 0, 3}).Draw(t, "shape")}
 	case 1:
 		l := rapid.SampledFrom([][]string{{"m", "s"}, {"f", "m", "s"}, {"m", "s2"}, {"f", "s"}, {"f", "f", "m", "s2"}}).Draw(t, "ids")
 		return model.Op{K: "regpipe", ET: rapid.SampledFrom([]string{"A", "B"}).Draw(t, "et"), P: rapid.SampledFrom([]string{"p", "q"}).Draw(t, "p"), IDs: l, Pol: rapid.SampledFrom([]int{0, 0, 0, 1, 2}).Draw(t, "ppol")}
@@ -533,7 +533,11 @@ func applyLin(b *eventlogger.Broker, w *nodes.World, op model.Op) linOut {
 		case 3:
 			opts = append(opts, eventlogger.WithNodeRegistrationPolicy("bogus"))
 		}
-		return linOut{ok: b.RegisterNode(eventlogger.NodeID(op.N), n, opts...) == nil}
+		var obj eventlogger.Node = n
+		if op.Shape == 3 {
+			obj = nodes.Uncomparable{Inner: n, Pad: []int{1}} // a node value of a type that cannot be a map key
+		}
+		return linOut{ok: b.RegisterNode(eventlogger.NodeID(op.N), obj, opts...) == nil}
 	case "regpipe":
 		var ids []eventlogger.NodeID
 		for _, id := range op.IDs {
